@@ -6,7 +6,8 @@ class C08(Spec):
     drv = "drv_c08"
     harness = "h_c08"
     lean_deps = ("C06", "C07")
-    required_theorems = ()
+    required_theorems = ("C08.localdb_refines_spec", "C08.reachable_refines", "C08.rollback_discards_exactly_tx",
+                         "C08.commit_keeps", "C08.list_agrees_get")
     level_text = ("Lean theorems about the model of common/db.LocalDB (txcache/cache/maindb, read-through fill, Begin/Commit/"
                   "Rollback, List/PrefixCount through the merged iterator) against the (base, overlay, optional tx) "
                   "specification; tied to the code by a line-by-line differential run over generated histories on a "
